@@ -293,3 +293,108 @@ pub broadcast proof fn axiom_vec_u8_len(v: Vec<u8>)
 { }
 
 pub broadcast group group_le { lemma_le_len16, lemma_le_len32, lemma_le_len64, axiom_vec_u8_len }
+
+// ---------------------------------------------------------------------------------------
+// str / slice shims (D8): documented std behaviour, assumed; validated natively (thorough)
+
+/// UTF-8 bytes of a char sequence (a function of the chars; uninterpreted)
+pub uninterp spec fn utf8(s: Seq<char>) -> Seq<u8>;
+
+#[verifier::external_body]
+pub broadcast proof fn axiom_str_bytes(s: &str)
+    ensures #[trigger] vstd::string::StringSliceAdditionalSpecFns::spec_bytes(s) == utf8(s@)
+{ }
+
+#[verifier::external_body]
+pub fn str_starts_with_ascii(s: &str, c: char) -> (r: bool)
+    requires (c as u32) < 128
+    ensures r == (utf8(s@).len() > 0 && utf8(s@)[0] == c as u8)
+{ s.starts_with(c) }
+
+pub uninterp spec fn str_skip(s: Seq<char>, off: int) -> Seq<char>;
+
+#[verifier::external_body]
+pub fn str_from<'a>(s: &'a str, off: usize) -> (r: &'a str)
+    ensures off <= utf8(s@).len(), utf8(r@) == utf8(s@).skip(off as int)
+{ &s[off..] }
+
+pub open spec fn join(parts: Seq<Seq<u8>>, c: u8) -> Seq<u8>
+    decreases parts.len()
+{
+    if parts.len() == 0 { Seq::<u8>::empty() }
+    else if parts.len() == 1 { parts[0] }
+    else { join(parts.drop_last(), c) + (seq![c] + parts.last()) }
+}
+
+pub open spec fn strs_utf8(v: Seq<&str>) -> Seq<Seq<u8>> { v.map_values(|p: &str| utf8(p@)) }
+
+/// the pieces of `b` between occurrences of `c` (uninterpreted; characterised by the shim below)
+pub uninterp spec fn split_spec(b: Seq<u8>, c: u8) -> Seq<Seq<u8>>;
+
+/// `s.split(c)` collected: at least one piece, pieces joined by `c` give back `s`, no piece contains `c`
+#[verifier::external_body]
+pub fn str_split_vec<'a>(s: &'a str, c: char) -> (r: Vec<&'a str>)
+    requires (c as u32) < 128
+    ensures r@.len() >= 1,
+        strs_utf8(r@) == split_spec(utf8(s@), c as u8),
+        join(split_spec(utf8(s@), c as u8), c as u8) == utf8(s@),
+        forall|i: int, j: int| 0 <= i < r@.len() && 0 <= j < utf8(r@[i]@).len() ==> utf8(r@[i]@)[j] != c as u8,
+{ s.split(c).collect() }
+
+#[verifier::external_body]
+pub fn str_len(s: &str) -> (r: usize) ensures r == utf8(s@).len() { s.len() }
+
+#[verifier::external_body]
+pub fn str_chars_vec(s: &str) -> (r: Vec<char>) ensures r@ == s@ { s.chars().collect() }
+
+/// `dst.copy_from_slice(src)` panics unless the lengths agree
+#[verifier::external_body]
+pub fn copy_into4(dst: &mut [u8; 4], src: &[u8])
+    ensures src@.len() == 4, final(dst)@ == src@
+{ dst.copy_from_slice(src) }
+
+#[verifier::external_body]
+pub fn copy_within_v(s: &mut [u8], from: usize, to: usize, dest: usize)
+    ensures from <= to <= old(s)@.len(), dest + (to - from) <= old(s)@.len(),
+        final(s)@.len() == old(s)@.len(),
+        forall|i: int| 0 <= i < final(s)@.len() ==> final(s)@[i] ==
+            (if dest <= i < dest + (to - from) { old(s)@[i - dest + from] } else { old(s)@[i] }),
+{ s.copy_within(from..to, dest) }
+
+#[verifier::external_body]
+pub fn copy_into_v(s: &mut [u8], from: usize, to: usize, src: &[u8])
+    ensures from <= to <= old(s)@.len(), src@.len() == to - from,
+        final(s)@.len() == old(s)@.len(),
+        forall|i: int| 0 <= i < final(s)@.len() ==> final(s)@[i] ==
+            (if from <= i < to { src@[i - from] } else { old(s)@[i] }),
+{ s[from..to].copy_from_slice(src) }
+
+// ---------------------------------------------------------------------------------------
+// UUID / EISA vocabulary (ACPI 6.5 19.6.136 ToUUID, 19.3.4 EISAID)
+
+pub open spec fn hex_ok(c: char) -> bool {
+    ('0' <= c <= '9') || ('a' <= c <= 'f') || ('A' <= c <= 'F')
+}
+pub open spec fn hex_val(c: char) -> int {
+    if '0' <= c <= '9' { c as int - 48 } else if 'a' <= c <= 'f' { c as int - 87 } else { c as int - 55 }
+}
+pub open spec fn hx(s: Seq<char>, i: int, j: int) -> u8 { (hex_val(s[i]) * 16 + hex_val(s[j])) as u8 }
+pub open spec fn uuid_sep(i: int) -> bool { i == 8 || i == 13 || i == 18 || i == 23 }
+pub open spec fn hex2(s: Seq<char>, i: int, j: int) -> bool { hex_ok(s[i]) && hex_ok(s[j]) }
+pub open spec fn uuid_wf(s: Seq<char>) -> bool {
+    &&& s.len() == 36
+    &&& s[8] == '-' && s[13] == '-' && s[18] == '-' && s[23] == '-'
+    &&& hex2(s, 0, 1) && hex2(s, 2, 3) && hex2(s, 4, 5) && hex2(s, 6, 7) && hex2(s, 9, 10) && hex2(s, 11, 12)
+    &&& hex2(s, 14, 15) && hex2(s, 16, 17) && hex2(s, 19, 20) && hex2(s, 21, 22) && hex2(s, 24, 25) && hex2(s, 26, 27)
+    &&& hex2(s, 28, 29) && hex2(s, 30, 31) && hex2(s, 32, 33) && hex2(s, 34, 35)
+}
+/// mixed-endian ToUUID byte order for aabbccdd-eeff-gghh-iijj-kkllmmnnoopp
+pub open spec fn to_uuid(s: Seq<char>) -> Seq<u8> {
+    seq![hx(s, 6, 7), hx(s, 4, 5), hx(s, 2, 3), hx(s, 0, 1), hx(s, 11, 12), hx(s, 9, 10), hx(s, 16, 17), hx(s, 14, 15),
+         hx(s, 19, 20), hx(s, 21, 22), hx(s, 24, 25), hx(s, 26, 27), hx(s, 28, 29), hx(s, 30, 31), hx(s, 32, 33), hx(s, 34, 35)]
+}
+/// converting back: every nibble of the buffer is the value of the digit it came from
+pub proof fn lemma_uuid_round_trip(s: Seq<char>, i: int, j: int)
+    requires hex2(s, i, j)
+    ensures hx(s, i, j) as int / 16 == hex_val(s[i]), hx(s, i, j) as int % 16 == hex_val(s[j])
+{ }
